@@ -183,6 +183,86 @@ func runC02(c *core.Ctx) {
 	for _, k := range cases {
 		c02Run(c, o, sp, s1, k)
 	}
+	// the same bytes delivered again to the same SP at other clock positions: every delivery is judged on its own clock
+	for i := 0; i < c.Pick(300, 6000); i++ {
+		if c.Mine(i) {
+			c02Redelivery(c, o, sp, s1)
+		}
+	}
+}
+
+// c02Redelivery builds one valid response with generous condition windows and delivers the identical bytes several times
+// while the clock moves back and forth across IssueInstant+MaxIssueDelay (and finally past the condition windows).
+func c02Redelivery(c *core.Ctx, o *so.Oracle, sp *saml.ServiceProvider, s1 *fx.KeyPair) {
+	o.Reset()
+	tol := c02Tols[1+c.Rng.Intn(len(c02Tols)-1)]
+	if tol.D < 2*time.Millisecond {
+		tol.D = 90 * time.Second
+	}
+	fx.SetTolerances(tol.D, tol.S)
+	sp.AllowIDPInitiated = false
+	n := fx.Epoch
+	fx.SetNow(n)
+	window := 10*time.Hour + 4*tol.D
+	sa := o.Assertion(so.AssertionSpec{RequestID: "req-1", NameID: "tag-R", Now: n})
+	el := sa.Element()
+	setTimes(el, n, n.Add(-time.Hour), n.Add(window), []time.Time{n.Add(window)}, 0)
+	layout := c.Rng.Intn(2)
+	var err error
+	if layout == 1 {
+		if el, err = o.Sign(el, s1, ""); err != nil {
+			return
+		}
+	}
+	rel := so.ResponseEl(o.Response("req-1", n), el)
+	rel.CreateAttr("IssueInstant", lexical(n, 0))
+	if layout == 0 {
+		if rel, err = o.Sign(rel, s1, ""); err != nil {
+			return
+		}
+	}
+	raw := so.Bytes(rel)
+	cur := mustURL(so.SPACS)
+	offsets := []time.Duration{0, tol.D - time.Millisecond, tol.D + time.Millisecond, time.Second, tol.D + time.Hour, tol.D / 2, window + tol.S + time.Millisecond, window + tol.S - time.Millisecond}
+	steps := 3 + c.Rng.Intn(4)
+	var hist []string
+	for s := 0; s < steps; s++ {
+		off := offsets[c.Rng.Intn(len(offsets))]
+		if s == 0 && c.Rng.Intn(2) == 0 {
+			off = 0 // usually accepted once first
+		}
+		fx.SetNow(n.Add(off))
+		wantAccept := off <= tol.D-time.Millisecond // the issue-instant bound is the tightest; the condition windows are wider by construction
+		if off >= tol.D+time.Millisecond {
+			wantAccept = false
+		}
+		var perr error
+		p, pv, frame, _ := core.Guard(func() {
+			if c.Rng.Intn(2) == 0 {
+				_, perr = sp.ParseXMLResponse(raw, []string{"req-1"}, cur)
+			} else {
+				_, perr = so.DeliverPOST(sp, raw, []string{"req-1"}, cur)
+			}
+		})
+		c.Eval()
+		hist = append(hist, fmt.Sprintf("now=issue+%v:%v", off, perr == nil))
+		desc := fmt.Sprintf("redelivery D=%v S=%v layout=%d history=[%s]", tol.D, tol.S, layout, strings.Join(hist, " "))
+		replay := map[string]any{"case": desc, "response": string(raw)}
+		if p {
+			c.Violation("C02/panic/"+frame, fmt.Sprintf("panic %v", pv), replay)
+			return
+		}
+		c.Nontrivial(desc)
+		switch {
+		case perr == nil && !wantAccept:
+			c.Violation("C02/accepted-outside-window/redelivery/Response.IssueInstant+MaxIssueDelay", fmt.Sprintf("the same bytes were accepted %v after their IssueInstant (%s)", off, desc), replay)
+			return
+		case perr != nil && wantAccept:
+			c.Violation("C02/rejected-inside-windows/redelivery", fmt.Sprintf("rejected %v after IssueInstant although every bound holds: %s (%s)", off, errPrivate(perr), desc), replay)
+			return
+		}
+		c.Count("redeliveries_judged")
+	}
 }
 
 func c02Run(c *core.Ctx, o *so.Oracle, sp *saml.ServiceProvider, s1 *fx.KeyPair, k c02Case) {
